@@ -312,8 +312,43 @@ def part3(ex, tier, ev, fnd):
     pool.shutdown()
 
 
+def part4(tier, ev, fnd):
+    """twin hosts: two profiles that differ in their name only, one sorting before and one after the profile both name in a
+    stack / exec directive, must be built to the same text (modulo the name): the text produced for a profile depends on
+    the profiles it names, not on where its own name falls in the processing order"""
+    def host(n, directive):
+        return ('abi <abi/4.0>,\n\ninclude <tunables/global>\n\n@{exec_path} = @{bin}/%s\nprofile %s @{exec_path} {\n  include <abstractions/base>\n\n  @{exec_path} mr,\n\n  %s\n\n'
+                '  include if exists <local/%s>\n}\n' % (n, n, directive, n))
+    helper = ('abi <abi/4.0>,\n\ninclude <tunables/global>\n\n@{exec_path} = @{bin}/verif-c02-mmm\n@{exec_path} += @{lib}/verif-c02-mmm\nprofile verif-c02-mmm @{exec_path} flags=(complain) {\n  include <abstractions/base>\n\n'
+              '  @{exec_path} mr,\n  @{bin}/verif-x rPx,\n  @{bin}/verif-y rPUx,\n  /etc/verif-c02 r,\n\n  profile sub flags=(complain) {\n    include <abstractions/base>\n    /etc/verif-c02.sub r,\n'
+              '    include if exists <local/verif-c02-mmm_sub>\n  }\n\n  include if exists <local/verif-c02-mmm>\n}\n')
+    extra = {'apparmor.d/groups/apps/verif-c02-mmm': helper}
+    for kind, d in (('stackx', '#aa:stack X verif-c02-mmm'), ('stack', '#aa:stack verif-c02-mmm'), ('exec', '#aa:exec verif-c02-mmm')):
+        for pos in ('aaa', 'zzz'):
+            extra['apparmor.d/groups/apps/verif-c02-%s-%s' % (pos, kind)] = host('verif-c02-%s-%s' % (pos, kind), d)
+    cfgs = [cfgx.Cfg('arch', 4, '4.1', 'enforce', True), cfgx.Cfg('debian', 3, '3.0', 'complain', False)]
+    ex = cfgx.Explorer(extra_src=extra, jobs=2)
+    try:
+        trees = ex.build_all(cfgs)
+    finally:
+        ex.close()
+    n = 0
+    for c in cfgs:
+        for kind in ('stackx', 'stack', 'exec'):
+            a = ex.text(trees[c]['apparmor.d/verif-c02-aaa-' + kind]).replace('verif-c02-aaa-', 'verif-c02-NNN-')
+            z = ex.text(trees[c]['apparmor.d/verif-c02-zzz-' + kind]).replace('verif-c02-zzz-', 'verif-c02-NNN-')
+            n += 1
+            if a != z:
+                import difflib
+                d = [l for l in difflib.unified_diff(a.split('\n'), z.split('\n'), 'sorted before its target', 'sorted after its target', lineterm='', n=0) if not l.startswith(('---', '+++', '@@'))]
+                fnd.report('twin-hosts-differ directive=%s' % kind, '%s: two profiles that differ in their name only are built differently depending on whether they sort before or after the profile they %s: %s' % (
+                    cfgx.tag(c), kind, d[:6]), {'config': c._asdict(), 'directive': kind})
+    ev.add(transitions=n, twin_host_pairs=n)
+
+
 def run(tier):
     ev = C.Evidence(PROP, tier); fnd = C.Findings(PROP)
+    part4(tier, ev, fnd)
     ex = cfgx.Explorer()
     try:
         # plain and instrumented binaries must agree before anything the instrumented one says is used
